@@ -470,8 +470,8 @@ func v1Authenticate(c *vf.Ctx) {
 
 // ------------------------------------------------------------------ NTLMv2, crypto/ntlmv2
 
-var v2Users = []string{"", "user", "User", "USER", "é", "É", "Σς", "\U00010428", "ß", "ı", "user.name", "a", "100%sure", "%s%d"}
-var v2Domains = []string{"", "corp", "Corp", "CORP", "дом", "ДОМ", "a", "corp.example.com", "é", "\U00010428", "d\U0001F600m", "域", "%USERDOMAIN%"}
+var v2Users = []string{"", "user", "User", "USER", "é", "É", "Σς", "\U00010428", "ß", "ı", "user.name", "a", "100%sure", "%s%d", "alice@corp.local", "CORP\\alice", "ops/deploy", " padded ", "\ufeffbom"}
+var v2Domains = []string{"", "corp", "Corp", "CORP", "дом", "ДОМ", "a", "corp.example.com", "é", "\U00010428", "d\U0001F600m", "域", "%USERDOMAIN%", "corp\\sub", "a@b", " d "}
 var v2Passwords = []string{"", "a", "Password", "é\U0001F600", "Σ я"}
 
 func arr8(b []byte) (o [8]byte) { copy(o[:], b); return }
